@@ -67,7 +67,13 @@ def handle (cmd : String) (args : List Sexp) : Option String :=
       if digitsOk 8 ds then pure (litStr (octLit ds)) else none
   | "expr.negdec", [n] => do
       let n ← n.nat?
-      pure (litStr (negLit (decLit n)))
+      pure (litStr (negDecLit n))
+  | "expr.decs", [ds] => do
+      let ds ← ds.nats?
+      if digitsOk 10 ds then pure (litStr (decLit (digitsVal 10 ds))) else none
+  | "expr.negdecs", [ds] => do
+      let ds ← ds.nats?
+      if digitsOk 10 ds then pure (litStr (negDecLit (digitsVal 10 ds))) else none
   | "expr.neghex", [ds] => do
       let ds ← ds.nats?
       if digitsOk 16 ds then pure (litStr (negLit (hexLit ds))) else none
